@@ -708,6 +708,11 @@ class Spec:
         state = {'havocked': False}
 
         def finish(st2):
+            pa = getattr(st2, 'pending_action', None)
+            if pa is not None and pa[0] == name:
+                st2.actions = list(getattr(st2, 'actions', [])) + [(pa[0], pa[1], dict(st2.ghost), pa[2])]
+                st2.pending_action = None
+                self.on_action(ex, st2, pa, env)
             if len(results) == 0:
                 k(st2, None)
             elif len(results) == 1:
@@ -764,8 +769,46 @@ class Spec:
             return
         self.reentrant_havoc(ex, st, pure)
 
+    def is_shared_call(self, name):
+        return name.startswith('(*' + IR.XPKG + '.Map') and '$' not in name
+
+    def env_step(self, ex, st):
+        """Interference mode: other goroutines ran an arbitrary number of operations on the shared container: its
+        abstract contents are arbitrary, subject to the invariants that every operation preserves (the `requires`
+        clauses of the function under proof, which are object invariants)."""
+        for g in list(st.ghost.keys()):
+            if g.startswith('view$'):
+                st.ghost[g] = ex.fresh('gENV_' + mangle(g), st.ghost[g].sort())
+        con = ex.cur_contract
+        if con is not None:
+            for c in con.of('requires'):
+                try:
+                    st.pc.append(self.eval_bool(ex, c.expr, ex.cur_env, st, st))
+                except EngineError:
+                    pass
+
     def on_contract_call(self, ex, fr, ins, con, name, args, st):
         st.trace.append(('call', name, [a for a in args], ex.line(ins)))
+        if ex.mode == 'intf' and self.is_shared_call(name) and not getattr(ex, 'dry', 0):
+            self.env_step(ex, st)
+            st.pending_action = (name, st.copy(), ex.line(ins), fr)
+
+    def on_action(self, ex, st, pa, callee_env):
+        """`at <callee>: step ...` clauses of the function under proof: obligations about one atomic action on the shared
+        container (old = the state right before the action, after the environment step)."""
+        name, before, line, frx = pa
+        callee = self.prog.short(name)
+        for cl in self.site_clauses(ex, callee, 'step'):
+            e2 = dict(ex.local_env(frx, st))
+            e2.update(ex.cur_env)
+            for kx, vx in callee_env.items():
+                e2['$' + kx] = vx
+            # the callee's parameters are visible as act_<name>
+            for kx, vx in callee_env.items():
+                e2['act_' + kx] = vx
+            g = self.eval_bool(ex, cl.expr, e2, st, before)
+            ex.oblige(st, '%s/%s/step.%s.%s@L%s' % (ex.tagstr(cl), ex.short_fn(), callee, cl.label or 's%d' % cl.ordinal, line), g,
+                      tags=cl.tags, where='%s:%d' % (cl.file, cl.line), kind='step')
 
     def havoc_all(self, ex, con, env, st, old):
         for c in con.of('modifies'):
@@ -943,7 +986,8 @@ class Spec:
             return out
         for cl in con.of('at'):
             if cl.extra['what'] == what and (cl.extra['site'] == callee_short or callee_short.endswith('.' + cl.extra['site'])):
-                out.append(cl)
+                if ex.active(cl):
+                    out.append(cl)
         return out
 
     def iterates_caller(self, ex, fr, ins, con, c, env, st, old, k):
@@ -1012,7 +1056,8 @@ class Spec:
         st1.pc.append(z3.Select(mapval(sth).x, ex.ts.pack(kk)) == ex.ts.opt_some(vs, ex.ts.pack(vv)))
         # strong fact under purity of everything that ran so far
         view_pre = mapval(st1).x
-        st1.pc.append(z3.Implies(pure_before, z3.Select(view_pre, ex.ts.pack(kk)) == ex.ts.opt_some(vs, ex.ts.pack(vv))))
+        if ex.mode != 'intf':
+            st1.pc.append(z3.Implies(pure_before, z3.Select(view_pre, ex.ts.pack(kk)) == ex.ts.opt_some(vs, ex.ts.pack(vv))))
         st1.trace = [t for t in st1.trace if t[0] != 'cb'] + [('cb', None, [], [], site, pure_before, 0)]
         st1.iter = (kk, vv)
         ntrace = len(st1.trace)
@@ -1044,7 +1089,8 @@ class Spec:
             pure_now = z3.And(*[t[5] for t in st2.trace if t[0] == 'cb' and t[5] is not None] + [z3.BoolVal(True)])
             view_post = mapval(st2).x
             g = z3.Implies(pure_now, view_post == z3.Store(view_pre, ex.ts.pack(kk), z3.Select(view_post, ex.ts.pack(kk))))
-            ex.oblige(st2, 'AUX/%s/iter.%s.ownkey-frame@%s#%s' % (caller_short, callee, site, pid), g, tags=[], kind='invariant')
+            if ex.mode != 'intf':
+                ex.oblige(st2, 'AUX/%s/iter.%s.ownkey-frame@%s#%s' % (caller_short, callee, site, pid), g, tags=[], kind='invariant')
             # visitor returned false: the traversal stops here
             st3 = st2.copy()
             st3.pc.append(z3.Not(cont))
@@ -1064,7 +1110,8 @@ class Spec:
         for cl in invs:
             st4.pc.append(self.eval_bool(ex, cl.expr, e4, st4, fn_old))
         q = z3.Const('q_it', ks)
-        st4.pc.append(z3.Implies(pure_all, z3.ForAll([q], z3.Implies(ex.ts.opt_is_some(vs, z3.Select(V0, q)), z3.Select(visE, q)))))
+        if ex.mode != 'intf':
+            st4.pc.append(z3.Implies(pure_all, z3.ForAll([q], z3.Implies(ex.ts.opt_is_some(vs, z3.Select(V0, q)), z3.Select(visE, q)))))
         st4.trace = [t for t in st4.trace if t[0] != 'cb'] + [('cb', None, [], [], site, pure_all, 0)]
         if not getattr(ex, 'dry', 0):
             ex.covers.append(('cover/%s/iter.%s.exit@%s' % (caller_short, callee, site), list(st4.pc)))
@@ -1130,6 +1177,8 @@ class Spec:
         if con is None or getattr(ex, 'dry', 0):
             return
         for cl in con.of('oncall'):
+            if not ex.active(cl):
+                continue
             pname = cl.extra['fn']
             ent = ex.cur_env.get(pname)
             if not ent or not ex.term(ent[1]).eq(ex.term(fv)):
